@@ -286,6 +286,8 @@ def o_entry(src, data, kw, pre, positional):
 
 # constructs whose values legitimately contain absolute stream positions
 def positional(src):
+    if 'Computed(this.r.data)' in src:
+        return False                  # only the bytes of the RawCopy are kept, not its offsets
     return any(k in src for k in ('Tell', 'Pointer', 'Seek', 'RawCopy', 'Peek', 'OffsettedEnd', 'Terminated'))
 
 
@@ -343,6 +345,14 @@ def pool_value(rng, name):
     if name == 'S18':
         # bit fields of the same width and different signedness, with values only one of them accepts
         return dict(u=rng.choice([0, 7, 8, 12, 15, -3, 16]), s=rng.choice([0, 7, -8, -3, 12, 8, -9])), kw
+    if name == 'S19':
+        # rotations whose amount and group size come from the data: the same amount with different group sizes, one call after the other
+        g = rng.choice([1, 2, 3, 4])
+        return dict(g=g, a=rng.choice([4, 12, 13, 8, 20, 36]), d=G.rand_bytes(rng, 2 * g)), kw
+    if name in ('S20', 'S21'):
+        return G.rand_bytes(rng, 4), kw
+    if name == 'S22':
+        return G.rand_bytes(rng, 12), kw
     raise KeyError(name)
 
 
@@ -412,14 +422,29 @@ def run(tier, seed):
                          'RawCopy(Int16ub)', 'Prefixed(Byte, GreedyRange(S0))', 'LazyArray(2, S0)', 'Lazy(S0)', 'NullTerminated(GreedyBytes)',
                          'FocusedSeq("b", "a"/Byte, "b"/Bytes(this.a))', 'RepeatUntil(obj_ == 0, Byte)',
                          'Struct("d"/Bytes(2), "c"/Checksum(Byte, sum8, this.d))']
+    # RawCopy inside delimited regions (sub-streams), away from offset 0; the variants with Computed keep only the bytes, so they are
+    # also compared across starting offsets
+    extra = {'Prefixed(Byte, RawCopy(Int16ub))': dict(value=513), 'Struct("k"/Byte, "f"/FixedSized(4, RawCopy(Int16ub)))': dict(k=1, f=dict(value=513)),
+             'Struct("k"/Bytes(3), "p"/Prefixed(Byte, Struct("a"/Byte, "r"/RawCopy(Bytes(2)))))': dict(k=b'abc', p=dict(a=1, r=dict(value=b'xy'))),
+             'Struct("k"/Byte, "n"/NullTerminated(RawCopy(GreedyBytes)))': dict(k=1, n=dict(value=b'xyz')),
+             'Struct("h"/Byte, "x"/ProcessXor(3, RawCopy(Bytes(2))))': dict(h=1, x=dict(value=b'xy')),
+             'Struct("k"/Byte, "p"/Prefixed(Byte, FocusedSeq("d", "r"/RawCopy(Int16ub), "d"/Computed(this.r.data))))': dict(k=1, p=None),
+             'Struct("k"/Byte, "f"/FixedSized(4, FocusedSeq("d", "r"/RawCopy(Int16ub), "d"/Computed(this.r.data))))': dict(k=1, f=None),
+             'FixedSized(4, FocusedSeq("d", "r"/RawCopy(Int16ub), "d"/Computed(this.r.data)))': ('data', b'\x01\x02\x03\x04\x09'),
+             'Prefixed(Byte, Prefixed(Byte, FocusedSeq("d", "r"/RawCopy(Bytes(2)), "d"/Computed(this.r.data))))': ('data', b'\x04\x03\x61\x62\x63\x09')}
+    srcs += list(extra)
     for src in srcs:
         for _ in range(6 if quick else 30):
             if src in POOL:
                 val, kw = pool_value(rng, src)
+            elif src in extra:
+                val, kw = extra[src], {}
             else:
                 val, kw = None, dict(n=2)
             c = eval(src, fresh_pool())
             data = None
+            if isinstance(val, tuple) and val[0] == 'data':
+                data, val = val[1], None
             if val is not None:
                 try:
                     data = c.build(val, **kw)
